@@ -90,14 +90,15 @@ def explore(ck):
         b = Block(gen.rb(r, 32), [coinbase_tx(i, [(5, b'\x51')]), t], version=ver, auxpow=aux)
         raws = [b.raw, b.raw + gen.rb(r, 5)] + [b.raw[:r.randrange(0, len(b.raw))] for _ in range(3)]
         m = bytearray(b.raw); m[r.randrange(len(m))] ^= 1 << r.randrange(8); raws.append(bytes(m))
-        for raw in raws:
-            if len(raw) < 200000: reqs.append((coin, len(b.raw), raw))
-    impl = run.hook_lines(ck.tools, 'parse-block', ['%s %d %s' % (c_, sz, raw.hex() if raw else '-') for c_, sz, raw in reqs])
-    mod = run.model_lines(ck.tools, ['block %s %d %s' % (c_, sz, raw.hex() if raw else '-') for c_, sz, raw in reqs])
-    for (c_, sz, raw), a, b in zip(reqs, impl, mod):
+        for k, raw in enumerate(raws):
+            if len(raw) < 200000: reqs.append((coin, len(b.raw), raw, k == 0))      # k == 0: the well-formed block itself; the others are truncated / extended / bit-flipped
+    impl = run.hook_lines(ck.tools, 'parse-block', ['%s %d %s' % (c_, sz, raw.hex() if raw else '-') for c_, sz, raw, wf in reqs])
+    mod = run.model_lines(ck.tools, ['block %s %d %s' % (c_, sz, raw.hex() if raw else '-') for c_, sz, raw, wf in reqs])
+    for (c_, sz, raw, wf), a, b in zip(reqs, impl, mod):
         ck.evaluated(); ck.count('parse-block hook requests')
-        a2 = 'err' if a.startswith('err') else ('panic' if a.startswith('PANIC') else a)
-        # allocation failure on absurd counts (capacity overflow) is not modelled: a panic on the implementation side counts as a read failure of a malformed block
-        if a2 == 'panic' and b == 'err': ck.count('parse-block: impl panics on a malformed block where the model reports a read error (allocation of an absurd count)'); continue
-        if a2 != b: ck.disagreement('read_block on %s (%d bytes)' % (c_, len(raw)), 'impl=%s model=%s' % (a[:300], b[:300]), None, in_domain=(b != 'err'), extra_replay='block %s %d %s' % (c_, sz, raw.hex()))
+        a2 = 'err' if a.startswith('err') else ('panic' if a.startswith(('PANIC', 'ABORT')) else a)
+        # allocation of an absurd count / length (Vec::with_capacity of a corrupted CompactSize: capacity overflow panic or allocation-failure abort) is not modelled:
+        # on a malformed block a panic/abort of the implementation is counted, not compared; on the well-formed block itself everything must agree
+        if a2 == 'panic' and not wf: ck.count('parse-block: implementation panics/aborts on a malformed block (allocation of an absurd count, not modelled)'); continue
+        if a2 != b: ck.disagreement('read_block on %s (%d bytes)' % (c_, len(raw)), 'impl=%s model=%s' % (a[:300], b[:300]), None, in_domain=wf, extra_replay='block %s %d %s' % (c_, sz, raw.hex()))
 
